@@ -63,7 +63,7 @@ def r_matchvisitors(root):
         for pr in props_:
             ob(pr, clause, L, fn_, what, ok)
             if not ok: out.append(Finding(pr, clause, L, fn_, what, msg, witness=witness))
-    KW = ["begin", "_x", "end_2", "été", "Begin"]; NOKW = ["+", "a-b", "ab+", "2nd", "a b", "", "end;", "(x", "x.y", "=>", "a(", "x[", "if)"]
+    KW = ["begin", "_x", "end_2", "été", "Begin", "_", "x", "é1"]; NOKW = ["+", "a-b", "ab+", "2nd", "a b", "", "end;", "(x", "x.y", "=>", "a(", "x[", "if)", "begin\n", "\nbegin", "x ", " x", "9", "a\tb"]
     def describe(k, v):
         if k == "raise": return "raises %s" % v.cls
         if not isinstance(v, dict): return "returns %r" % (v,)
